@@ -337,12 +337,11 @@ Proof.
   eapply pres_bind with (Q := fun _ => True).
   - apply pres_remove_with_name. intros g r Hg. inversion Hg; subst; clear Hg.
     eapply pres_bind; [apply pres_the_ref|intros fr _].
-    eapply pres_bind with (Q := fun _ => True); [destruct (fr_parent fr); [apply pres_dec_ref_|apply pres_panic]|intros _ _].
-    eapply pres_bind; [apply pres_the_ref|intros fr' _].
     eapply pres_bind; [apply pres_modify; intros; apply put_ref_ok; auto|intros _ _].
     eapply pres_bind; [apply pres_incref|intros _ _].
     eapply pres_bind; [apply pres_add_child; exact Hnew|intros _ _].
     eapply pres_bind; [apply pres_backend, renamed_ok; exact Hnew|intros _ _].
+    eapply pres_bind with (Q := fun _ => True); [destruct (fr_parent fr); [apply pres_dec_ref_|apply pres_panic]|intros _ _].
     apply pres_ret; exact I.
   - intros o _. destruct o; [|apply pres_ret; exact I].
     eapply pres_bind; [apply pres_add_path_node_for|intros _ _].
